@@ -505,17 +505,25 @@ class Check(PropertyCheck):
                 failed_since = None if idx_r > idx_e else len(order)
         # a send returns after an acknowledgement covering its frame: when the read carries nothing but such an
         # acknowledgement for the outstanding frame (link up, caller still waiting), the send returns in that step
-        out_frm, link_failed = None, False
+        out_frm, link_failed, n_tx = None, False, 0
         for ev, st in zip(case["_events"], obs["steps"]):
             if ev[0] == "frames" and len(ev[1]) == 1 and ev[1][0][0] == "ACK" and out_frm is not None and not link_failed \
                     and ev[1][0][3] == (out_frm + 1) % 8:
                 if not any(e[0] == "done" and e[2] == [0] for e in st):
                     return (f"an ACK with ackNum {ev[1][0][3]} covering the outstanding frame {out_frm} did not complete the send "
                             f"(the frame is treated as unacknowledged)")
+            # "a repeat happening at once on a NAK": the read carries nothing but a NAK that does not acknowledge the
+            # outstanding frame (link up, caller still waiting, attempts left): the repeat is written in that very step
+            if ev[0] == "frames" and len(ev[1]) == 1 and ev[1][0][0] == "NAK" and out_frm is not None and not link_failed \
+                    and ev[1][0][3] != (out_frm + 1) % 8 and 0 < n_tx < ash.ACK_TIMEOUTS:
+                if not any(e[0] == "w" and e[1] == "data" and e[2] == out_frm and e[3] for e in st):
+                    return (f"a NAK (ackNum {ev[1][0][3]}) arrived while frame {out_frm} was outstanding after {n_tx} of "
+                            f"{ash.ACK_TIMEOUTS} attempts; the frame was not repeated at once")
             if ev[0] == "cancel":
                 out_frm = None             # the waiting caller may be the one cancelled: no expectation for this frame
             for e in st:
                 if e[0] == "w" and e[1] == "data":
+                    n_tx = n_tx + 1 if e[3] else 1
                     if not e[3]:
                         out_frm = e[2]     # first transmission; a frame first sent before an RSTACK carries a stale number
                 elif e[0] == "done":
